@@ -111,12 +111,24 @@ where
     M: datacake_rpc::RequestContents + datacake_rpc::TryAsBody,
 {
     let client = RpcClient::<S>::new(chan.clone());
-    match client.send(&msg).await {
-        Ok(v) if v == expect_reply => Probe::Served,
-        Ok(v) => Probe::Wrong(format!("served by the wrong handler: reply {v:?}, expected {expect_reply}")),
-        Err(s) if s.code == ErrorCode::ServiceUnavailable => Probe::Unknown,
-        Err(s) => Probe::Wrong(format!("unexpected error {s:?}")),
+    // a connection that cannot be opened (the machine is out of ephemeral ports, ...) says nothing about the registry:
+    // a few more attempts, then it is a tool error
+    for attempt in 0..20 {
+        match client.send(&msg).await {
+            Ok(v) if v == expect_reply => return Probe::Served,
+            Ok(v) => return Probe::Wrong(format!("served by the wrong handler: reply {v:?}, expected {expect_reply}")),
+            Err(s) if s.code == ErrorCode::ServiceUnavailable => return Probe::Unknown,
+            Err(s) if s.code == ErrorCode::ConnectionError => {
+                if attempt == 19 {
+                    eprintln!("tool error: no connection to the test server: {s:?}");
+                    std::process::exit(2);
+                }
+                tokio::time::sleep(std::time::Duration::from_millis(500)).await;
+            },
+            Err(s) => return Probe::Wrong(format!("unexpected error {s:?}")),
+        }
     }
+    unreachable!()
 }
 
 /// All six (service, message) pairs -> set of served pairs (or an error description).
@@ -171,8 +183,15 @@ pub async fn replay() {
     let mut next = 0usize;
     let total = hists.len();
     let hists = std::sync::Arc::new(hists);
+    let started = std::time::Instant::now();
     while next < total || !set.is_empty() {
         while next < total && set.len() < conc {
+            // every history opens a connection of its own; closed connections keep their port for a minute, so the
+            // rate is kept well below (ephemeral ports / 60 s)
+            let due = std::time::Duration::from_micros(next as u64 * 6000);
+            if started.elapsed() < due {
+                tokio::time::sleep(due - started.elapsed()).await;
+            }
             let hs = hists.clone();
             let hi = next;
             set.spawn(async move { (hi, run_history(hi, &hs[hi]).await) });
